@@ -128,9 +128,46 @@ def check(model: Model, run: Run) -> None:
     run.rule('C01.R3', 'ASPath.pack_attribute: with ASN4 negotiated the path is packed 4 bytes wide and AS_TRANS is not involved; without it every 4-byte ASN becomes AS_TRANS in a 2-byte AS_PATH and, iff one was substituted, an AS4_PATH with the ORIGINAL path packed 4 bytes wide follows', floor=5)
     _r3_aspath(model, run, folder)
 
+    # ------------------------------------------------------------------ R7 AS paths built from values are 4 bytes wide
+    run.rule('C01.R7', 'every ASPath.make_aspath call that packs caller-provided AS numbers (configuration text, local AS, merged paths) uses asn4=True: the 2-byte default raises struct.error for an AS above 65535, while pack_attribute converts a 4-byte path for 2-byte peers', floor=3)
+    n_mk = 0
+    for fi in model.funcs.values():
+        for c in walk_with_lambdas(fi.node):
+            if not (isinstance(c, ast.Call) and isinstance(c.func, ast.Attribute) and c.func.attr == 'make_aspath'):
+                continue
+            if not c.args:
+                continue
+            seg = c.args[0]
+            if isinstance(seg, (ast.List, ast.Tuple)) and not seg.elts:
+                continue  # empty path: nothing to pack
+            recv = dotted(c.func.value) or ''
+            if recv.endswith('AS4Path'):
+                continue  # always 4 bytes
+            n_mk += 1
+            wide = None
+            if len(c.args) >= 2:
+                wide = folder.fold(c.args[1], fi.module)
+            for k in c.keywords:
+                if k.arg == 'asn4':
+                    wide = folder.fold(k.value, fi.module)
+            run.check(
+                wide is True,
+                fi.qualname,
+                '%s packs AS numbers with asn4=%s' % (norm(c.func) + '(' + norm(seg)[:40] + ')', wide if wide is not None else 'default False'),
+                fi.loc(c),
+                'AS numbers above 65535 are valid (RFC 6793); packed 2 bytes wide ASN.pack_asn raises struct.error',
+            )
+    if n_mk < 3:
+        run.cannot('only %d make_aspath sites with content' % n_mk)
+
     # ------------------------------------------------------------------ R4 ADD-PATH tables
     run.rule('C01.R4', 'pack_nlri of every NLRI class reading negotiated.addpath yields the same (negotiated send x stored path id) table: stored / NOPATH+stored / stored minus 4 / stored, and the negotiated predicate is RequirePath.send of the NLRI family', floor=3)
     _r4_addpath(model, run, folder)
+
+    # the negotiated ADD-PATH directions themselves (shared with C07.R2)
+    from .C07 import _r2_addpath
+
+    _r2_addpath(model, run, folder, model.func('exabgp.bgp.message.open.capability.negotiated.Negotiated._negotiate'))
 
     # ------------------------------------------------------------------ R5 MP_REACH layout
     run.rule('C01.R5', 'MP_REACH_NLRI = AFI(2) SAFI(1) len(next hop)(1) next hop reserved(1)=0 NLRIs, next hop = RD-size zero bytes + address with the RD size from Family.size; MP_UNREACH_NLRI = AFI SAFI NLRIs; attribute codes 14 / 15', floor=5)
@@ -342,6 +379,36 @@ def _r6_self(model: Model, run: Run) -> None:
     txt = norm(rs.node)
     ok = 'self.ip_self(route.nlri.afi)' in txt and 'nexthop.resolve(neighbor_self)' in txt and 'route.with_nexthop(resolved_ip)' in txt
     run.check(ok, rs.qualname, 'next hop resolved to this neighbor ip_self(afi of the route)', rs.loc(), '"next-hop self" is the local address of that session, per address family')
+    # the resolved NEXT_HOP goes into a FRESH attribute collection: the operator's route object is shared between
+    # the neighbors it is sent to, so it must not be written (a shallow copy shares its dict)
+    writes = []
+    for n in walk_no_nested(rs.node):
+        recv = None
+        if isinstance(n, ast.Call) and isinstance(n.func, ast.Attribute) and n.func.attr in ('add', 'remove', 'pop', 'update', 'clear', '__setitem__') and isinstance(n.func.value, ast.Name):
+            recv = n.func.value.id
+        if isinstance(n, (ast.Assign, ast.AugAssign)):
+            for t in (n.targets if isinstance(n, ast.Assign) else [n.target]):
+                if isinstance(t, ast.Subscript) and isinstance(t.value, ast.Name):
+                    recv = t.value.id
+                if isinstance(t, ast.Subscript) and dotted(t.value) and 'attributes' in (dotted(t.value) or ''):
+                    recv = dotted(t.value)
+        if recv is not None and 'AttributeCollection' in model.type_of(rs.module, n.func.value if isinstance(n, ast.Call) else t.value):
+            writes.append((recv, n))
+    sl_rs = Slicer(model, rs)
+    fresh_ok = bool(writes)
+    bad_w = None
+    for recv, n in writes:
+        defs = sl_rs.defs.get(recv, [])
+        if not (len(defs) == 1 and isinstance(defs[0][0], ast.Call) and not defs[0][0].args and model.call_matches(rs.module, defs[0][0], 'AttributeCollection')):
+            fresh_ok = False
+            bad_w = bad_w or (recv, n)
+    run.check(
+        fresh_ok,
+        rs.qualname,
+        'attribute writes go to a freshly constructed AttributeCollection' if fresh_ok else 'writes to `%s`, which is not a fresh AttributeCollection(): %s' % (bad_w[0] if bad_w else '?', norm(bad_w[1])[:60] if bad_w else ''),
+        rs.loc(bad_w[1]) if bad_w else rs.loc(),
+        'the route handed to resolve_self is shared by every neighbor it is announced to; writing the resolved NEXT_HOP into it (or into a shallow copy, which shares the underlying dict) gives later neighbors the first neighbor\'s address',
+    )
     ips = model.funcs.get('exabgp.bgp.neighbor.session.Session.ip_self')
     if ips is None:
         run.cannot('Session.ip_self vanished')
